@@ -189,6 +189,14 @@ def run_case(case):
                 return
             subs.setdefault(k, {"log": [], "spans": [], "shared": bool(ev.get("shared"))})
             subs[k]["spans"].append([sim.loop.time(), None])
+            if drv in sc.HID and ev.get("drop_handle"):
+                # the subscriber does not keep what register() returned (it never intends to unsubscribe)
+                sim.driver.bus_traffic.register(
+                    lambda d, c, r, e, k=k: subs[k]["log"].append((sim.loop.time(), cmd_fp(c), resp_fp(r), bool(e))))
+                import gc
+                gc.collect()
+                handles[k] = None
+                return
             if drv in sc.HID:
                 if subs[k]["shared"]:       # a subscriber keeps its kind when it re-subscribes
                     handles[k] = sim.driver.bus_traffic.register(shared_fn)
@@ -204,7 +212,7 @@ def run_case(case):
             else:
                 handles[k] = sim.driver.new_dali_rx_queue()
         else:
-            if k not in handles:
+            if k not in handles or handles[k] is None:
                 return
             subs[k]["spans"][-1][1] = sim.loop.time()
             if drv in sc.HID:
@@ -221,7 +229,7 @@ def run_case(case):
     def inspect(sim, obs):
         obs["delivered"] = list(sim.delivered)
         for k, q in handles.items():
-            if drv not in sc.HID:
+            if drv not in sc.HID and q is not None:
                 _drain_queue(q, subs[k], sim.loop.time())
 
     obs = sc.run(case, hooks={"after_connect": after_connect, "call": call, "inspect": inspect})
@@ -385,7 +393,7 @@ def transaction(draw):
     if k == "plain":
         return [(0, "forward", 16, draw(st.sampled_from(PLAIN16)))]
     if k.startswith("query"):
-        q = draw(st.sampled_from(QUERY16 + [0x01FE30, 0xFFFE00 | 0x35]))
+        q = draw(st.sampled_from(QUERY16 + [0x01FE30, 0xFFFE00 | 0x35, 0x03028B, 0x03028B]))   # ... QueryEventScheme (enumerated answer)
         bits = 24 if q > 0xFFFF else 16
         t = [(0, "forward", bits, q)]
         if k == "query+answer":
@@ -411,6 +419,9 @@ def transaction(draw):
         return t
     if k == "dt+ext":
         dt, ext = draw(st.sampled_from(DTEXT))
+        if draw(st.integers(0, 3)) == 0:
+            # an application-extended query with an enumerated answer (QUERY ASSIGNED COLOUR), any answer byte
+            return [(0, "forward", 16, 0xC108), (small, "forward", 16, 0x03FC), (2 * small, "backward", 8, draw(st.integers(0, 255)))]
         return [(0, "forward", 16, 0xC100 | dt), (small, "forward", 16, ext)]
     if k == "dt-alone":
         return [(0, "forward", 16, 0xC100 | draw(st.sampled_from([1, 6, 8])))]
@@ -480,9 +491,21 @@ def case_strategy(draw, driver=None):
         t_open = t + (0.0 if lost["notify"] else 0.05) + 1.0      # noticed at once or at the hang-up; retry one interval later
         if draw(st.booleans()):
             # another master talks while the driver is still doing its version/serial handshake on the new connection
-            for off in draw(st.lists(st.sampled_from([0.0007, 0.0021, 0.0034, 0.0052, 0.0068, 0.0085]), min_size=1, max_size=3, unique=True)):
-                inject.append({"t": round(t_open + off, 5), "kind": "forward", "bits": 16, "value": draw(st.sampled_from(PLAIN16)),
-                               "during_handshake": True})
+            if draw(st.booleans()):
+                for off in draw(st.lists(st.sampled_from([0.0007, 0.0021, 0.0034, 0.0052, 0.0068, 0.0085]), min_size=1, max_size=3, unique=True)):
+                    inject.append({"t": round(t_open + off, 5), "kind": "forward", "bits": 16,
+                                   "value": draw(st.sampled_from([0x0105, 0xFE80, 0x0300, 0xFF06])), "during_handshake": True})
+            else:
+                # a whole transaction of another master: query and its answer / a configuration command and its repeat
+                off = draw(st.sampled_from([0.0007, 0.0021, 0.0034, 0.0052]))
+                if draw(st.booleans()):
+                    inject.append({"t": round(t_open + off, 5), "kind": "forward", "bits": 16, "value": draw(st.sampled_from(QUERY16)),
+                                   "during_handshake": True})
+                    inject.append({"t": round(t_open + off + 0.013, 5), "kind": "backward", "bits": 8, "value": draw(st.integers(0, 255))})
+                else:
+                    c = draw(st.sampled_from(TWICE16))
+                    inject.append({"t": round(t_open + off, 5), "kind": "forward", "bits": 16, "value": c, "during_handshake": True})
+                    inject.append({"t": round(t_open + off + 0.02, 5), "kind": "forward", "bits": 16, "value": c})
         t += 2.0           # reconnection attempt one interval (1 s) after the loss was noticed, then the handshake
         for j in range(draw(st.integers(1, 3))):
             dt_, ext = draw(st.sampled_from(DTEXT))
@@ -514,6 +537,9 @@ def case_strategy(draw, driver=None):
         events.append({"t": t_in, "what": "call", "op": "sub", "id": k})
         if drv in ("tridonic", "hasseb") and draw(st.integers(0, 4)) == 0:
             events[-1]["raises"] = draw(st.integers(1, 3))      # this subscriber's callback fails on every m-th report
+        elif drv in ("tridonic", "hasseb") and draw(st.integers(0, 3)) == 0:
+            events[-1]["drop_handle"] = True
+            continue
         elif drv == "tridonic" and k >= 1 and draw(st.integers(0, 2)) == 0:
             events[-1]["shared"] = True
             if draw(st.booleans()):
@@ -547,6 +573,8 @@ def features(case):
         f.append("device-lost-and-back-mid-history")
     if any(e.get("raises") for e in case.get("events", [])):
         f.append("subscriber-whose-callback-raises")
+    if any(e.get("drop_handle") for e in case.get("events", [])):
+        f.append("subscriber-that-does-not-keep-its-handle")
     if any(x.get("split") for x in case.get("inject", [])):
         f.append("observed-frame-split-over-two-reads-with-own-send-between")
     if any(x.get("during_handshake") for x in case.get("inject", [])):
